@@ -97,6 +97,7 @@ REG.contract(
     raises=[("dns.exception.FormError", "self.section > section")],
     modifies={"self.section": T.int},
     ensures=["self.section == section", "self.section >= old_self.section"],
+    ensures_raise=["self.section == old_self.section"],
     props=["C03"],
     note="sections only move forward",
 )
@@ -140,4 +141,130 @@ REG.contract(
     note="a question that does not fit is removed whole: on TooBig the buffer, the counts and the compression table are exactly "
          "what they were (no entry can point into removed bytes); otherwise the output grew within max_size, old bytes and table "
          "entries are untouched and only the question count moved",
+)
+
+
+# ----------------------------------------------------------------------------- the general case: any record set (C08-P1)
+class _RRsetStub:
+    """stands for an RRset / Rdataset being rendered: to_wire appends to the buffer, may enter the offsets of names it wrote
+    into the compression table, and returns how many records it wrote"""
+
+    def to_wire(self, file, compress=None, origin=None, **kw):
+        raise NotImplementedError
+
+
+RRS = "contracts.renderer._RRsetStub"
+REG.declare_class(RRS)
+REG.contract(
+    RRS + ".to_wire",
+    params={"self": T.obj(RRS), "file": T.bytesio, "compress": T.map_of(T.int, T.int), "origin": T.opt(NAME)},
+    modifies={"file": None, "compress": T.map_of(T.int, T.int)},
+    raises=[("dns.name.NeedAbsoluteNameOrOrigin", "True", "may"), ("dns.name.NameTooLong", "True", "may")],
+    returns=T.nat,
+    ensures=[
+        "file.tell() == len(file.getvalue())",
+        "len(file.getvalue()) >= len(old_file.getvalue())",
+        "file.getvalue()[:len(old_file.getvalue())] == old_file.getvalue()",
+        # table: old entries untouched; new entries point into what was just written, within the 14-bit limit
+        "all((k in compress) and compress[k] == old_compress[k] for k in old_compress)",
+        "all((k in old_compress) or (len(old_file.getvalue()) <= compress[k] and compress[k] < len(file.getvalue()) and compress[k] <= 0x3FFF) for k in compress)",
+    ],
+    ensures_raise=[
+        "file.tell() == len(file.getvalue())", "len(file.getvalue()) >= len(old_file.getvalue())",
+        "file.getvalue()[:len(old_file.getvalue())] == old_file.getvalue()",
+        "all((k in compress) and compress[k] == old_compress[k] for k in old_compress)",
+        "all((k in old_compress) or (len(old_file.getvalue()) <= compress[k] and compress[k] < len(file.getvalue()) and compress[k] <= 0x3FFF) for k in compress)",
+    ],
+    status="assumed", props=["C03", "C08"],
+    note="ASSUMED interface of a record set's to_wire (proved for names: Name.to_wire#file): it only appends, only adds table "
+         "entries for offsets inside what it appended, and returns the number of records written",
+)
+
+REG.contract(
+    "dns.renderer.Renderer.add_rrset",
+    params={"self": RENDERER_FULL, "section": T.range(0, 3), "rrset": T.obj(RRS)},
+    requires=_R_OK,
+    raises=[("dns.exception.FormError", "self.section > section"),
+            ("dns.exception.TooBig", "True", "may"),
+            ("dns.name.NeedAbsoluteNameOrOrigin", "True", "may"),
+            ("dns.name.NameTooLong", "True", "may")],
+    ensures=_R_OK + [
+        "len(self.output.getvalue()) <= self.max_size",
+        f"len(self.output.getvalue()) >= {_OLEN}",
+        f"self.output.getvalue()[:{_OLEN}] == old_self.output.getvalue()",
+        "self.counts[section] >= old_self.counts[section] and all((j == section) or self.counts[j] == old_self.counts[j] for j in range(4))",
+        "all((k in self.compress) and self.compress[k] == old_self.compress[k] for k in old_self.compress)",
+        "self.section == section",
+    ],
+    ensures_raise={
+        # the section marker already names the section of the set that did not fit: Message.to_wire decides from it
+        # whether dropping the set means truncation (TC) or just a shorter additional section
+        "dns.exception.TooBig": _UNCHANGED + _R_OK + ["self.section == section"],
+        "dns.exception.FormError": ["all(self.counts[j] == old_self.counts[j] for j in range(4))"],
+    },
+    props=["C03", "C08"],
+    note="any record set that does not fit is removed whole: on TooBig the buffer, the counts and the compression table are "
+         "exactly what they were; otherwise the output grew within max_size, old bytes and table entries are untouched, only "
+         "this section's count moved and the section marker is set BEFORE rendering (truncation decisions read it)",
+)
+
+
+class _RdatasetStub:
+    def to_wire(self, name, file, compress=None, origin=None, **kw):
+        raise NotImplementedError
+
+
+RDSS = "contracts.renderer._RdatasetStub"
+REG.declare_class(RDSS)
+REG.contract(
+    RDSS + ".to_wire",
+    params={"self": T.obj(RDSS), "name": NAME, "file": T.bytesio, "compress": T.map_of(T.int, T.int), "origin": T.opt(NAME)},
+    modifies={"file": None, "compress": T.map_of(T.int, T.int)},
+    raises=[("dns.name.NeedAbsoluteNameOrOrigin", "True", "may"), ("dns.name.NameTooLong", "True", "may")],
+    returns=T.nat,
+    ensures=[
+        "file.tell() == len(file.getvalue())",
+        "len(file.getvalue()) >= len(old_file.getvalue())",
+        "file.getvalue()[:len(old_file.getvalue())] == old_file.getvalue()",
+        # table: old entries untouched; new entries point into what was just written, within the 14-bit limit
+        "all((k in compress) and compress[k] == old_compress[k] for k in old_compress)",
+        "all((k in old_compress) or (len(old_file.getvalue()) <= compress[k] and compress[k] < len(file.getvalue()) and compress[k] <= 0x3FFF) for k in compress)",
+    ],
+    ensures_raise=[
+        "file.tell() == len(file.getvalue())", "len(file.getvalue()) >= len(old_file.getvalue())",
+        "file.getvalue()[:len(old_file.getvalue())] == old_file.getvalue()",
+        "all((k in compress) and compress[k] == old_compress[k] for k in old_compress)",
+        "all((k in old_compress) or (len(old_file.getvalue()) <= compress[k] and compress[k] < len(file.getvalue()) and compress[k] <= 0x3FFF) for k in compress)",
+    ],
+    status="assumed", props=["C03", "C08"],
+    note="ASSUMED interface of a record set's to_wire (proved for names: Name.to_wire#file): it only appends, only adds table "
+         "entries for offsets inside what it appended, and returns the number of records written",
+)
+
+REG.contract(
+    "dns.renderer.Renderer.add_rdataset",
+    params={"self": RENDERER_FULL, "section": T.range(0, 3), "name": NAME, "rdataset": T.obj(RDSS)},
+    requires=_R_OK,
+    raises=[("dns.exception.FormError", "self.section > section"),
+            ("dns.exception.TooBig", "True", "may"),
+            ("dns.name.NeedAbsoluteNameOrOrigin", "True", "may"),
+            ("dns.name.NameTooLong", "True", "may")],
+    ensures=_R_OK + [
+        "len(self.output.getvalue()) <= self.max_size",
+        f"len(self.output.getvalue()) >= {_OLEN}",
+        f"self.output.getvalue()[:{_OLEN}] == old_self.output.getvalue()",
+        "self.counts[section] >= old_self.counts[section] and all((j == section) or self.counts[j] == old_self.counts[j] for j in range(4))",
+        "all((k in self.compress) and self.compress[k] == old_self.compress[k] for k in old_self.compress)",
+        "self.section == section",
+    ],
+    ensures_raise={
+        # the section marker already names the section of the set that did not fit: Message.to_wire decides from it
+        # whether dropping the set means truncation (TC) or just a shorter additional section
+        "dns.exception.TooBig": _UNCHANGED + _R_OK + ["self.section == section"],
+        "dns.exception.FormError": ["all(self.counts[j] == old_self.counts[j] for j in range(4))"],
+    },
+    props=["C03", "C08"],
+    note="add_rdataset, same as add_rrset: any record set that does not fit is removed whole: on TooBig the buffer, the counts and the compression table are "
+         "exactly what they were; otherwise the output grew within max_size, old bytes and table entries are untouched, only "
+         "this section's count moved and the section marker is set BEFORE rendering (truncation decisions read it)",
 )
